@@ -100,6 +100,14 @@ def handle : List String → Option String
     match taiUtcAt leapTable num with
     | some v => return s!"ok {v}"
     | none => return "err key"
+  -- TaiUtc.get_last_next(mjd): past and future entries
+  | ["d3lnx", num] => some <| Id.run do
+    let some num := iOfStr? num | return "bad-op"
+    let sh : Option (Int × Int) → String := fun o => match o with
+      | some e => s!"{e.1} {e.2}"
+      | none => "none none"
+    let r := lastNext leapTable num
+    return s!"ok {sh r.1} {sh r.2}"
   -- SimpleEopDatabase.finals(mjd)["ut1_utc"] alone: `_finals[int(mjd)]`
   | ["d3fin", num] => some <| Id.run do
     let some num := iOfStr? num | return "bad-op"
